@@ -377,6 +377,8 @@ func (mr *memRepo) blobCreate(locked bool, opts ...BlobOpt) (BlobCreator, string
 			ok = false
 		}
 		if ok {
+			// the push is acknowledged without a new copy, the existing one counts as uploaded now for the GC grace period
+			b.m.mod = time.Now()
 			return nil, "", types.ErrBlobExists
 		}
 	}
